@@ -3,7 +3,7 @@ CONSTANTS
   MaxConns = 2
   MaxNonReady = 0
   MaxCreatePend = 0
-  MaxTicks = 3
+  MaxTicks = 4
   MaxStops = 1
   Timeout = 2
   ReadyCheckOnce = FALSE
